@@ -118,7 +118,7 @@ func c08Config(t *rapid.T) sim.Config {
 
 func c08Weights() map[string]int {
 	w := determinismWeights()
-	for k, v := range map[string]int{"avsRegister": 3, "avsOptIn": 4, "avsBLS": 3, "avsTask": 4, "avsResult": 8, "avsChallenge": 2, "avsUpdate": 1, "rawCall": 3, "msgUnjail": 2} {
+	for k, v := range map[string]int{"avsRegister": 3, "avsOptIn": 4, "avsBLS": 3, "avsTask": 4, "avsResult": 8, "avsChallenge": 2, "avsUpdate": 1, "rawCall": 3, "msgUnjail": 2, "regToken": 2} {
 		w[k] = v
 	}
 	return w
